@@ -21,7 +21,7 @@ import (
 // file + command line, executed under the seeded scheduler with seeded disk latencies, compared
 // with a sequential reference executor.
 
-func init() { engines["owsim"] = engineOwSim }
+func init() { engines["owsim"] = engineOwSim; engines["owsimext"] = engineOwSimExt }
 
 // models that tolerate any non-negative linked input
 var linkDest = []string{"Input", "Sum", "ApplyScalingFactor", "FixedPartition", "DeliveryRatio", "Gate", "PartitionDemand",
@@ -420,9 +420,56 @@ func listed(flag, name string) bool {
 }
 
 func engineOwSim(rc *RunCtx) *Outcome {
-	o := &Outcome{}
+	return runOwCase(rc, drawOwCase(rc.W), nil)
+}
+
+// engine "owsimext": ow-sim with "-outputs model=file,...": the results of the named models are
+// streamed (length-prefixed protobuf messages) through a pipe to child processes "ow-sim -writer
+// file".  Parent, stdin copier and every child run as simulated processes (simrt/proc.go): seeded
+// pipe capacity, short reads, latencies; a child's exit ends only the child; the parent's exit
+// closes its pipe ends.
+func engineOwSimExt(rc *RunCtx) *Outcome {
 	w := rc.W
 	c := drawOwCase(w)
+	if c.out == "" {
+		c.out = "/sim/out.h5"
+		c.finalFile = c.out
+		c.args = []string{c.in, c.out}
+	}
+	ext := map[string]string{}
+	var pairs []string
+	for i, m := range c.models {
+		if w.Bool(50) || (i == len(c.models)-1 && len(ext) == 0) {
+			ext[m.name] = "/sim/ext-" + m.name + ".h5"
+			pairs = append(pairs, m.name+"="+ext[m.name])
+		}
+	}
+	c.flags.SplitOutputs = strings.Join(pairs, ",")
+	return runOwCase(rc, c, ext)
+}
+
+// runOwCase executes one ow-sim command line under the simulator and applies the oracles.  ext
+// maps the models whose results go to a file of their own ("-outputs model=file": written by a
+// child process "ow-sim -writer file" that receives the results through a pipe) to that file.
+func runOwCase(rc *RunCtx, c *owCase, ext map[string]string) *Outcome {
+	o := &Outcome{}
+	w := rc.W
+	kp := ""
+	if ext != nil {
+		kp = "ext/"
+	}
+	outFile := func(m *gModel) string {
+		if f, ok := ext[m.name]; ok {
+			return f
+		}
+		return c.out
+	}
+	finalFile := func(m *gModel) string {
+		if c.flags.FinalStates != "" {
+			return c.flags.FinalStates
+		}
+		return outFile(m)
+	}
 	c.reference()
 	ctl := hdf5.Reset()
 	ctl.Tape = rc.S
@@ -436,12 +483,26 @@ func engineOwSim(rc *RunCtx) *Outcome {
 		modelNames = append(modelNames, fmt.Sprintf("%s%v", m.name, m.batches))
 		nodes += m.total
 	}
-	o.Sample = map[string]interface{}{"models_with_batches": modelNames, "generations": c.G, "timesteps": c.T, "links": len(c.links),
+	smp := map[string]interface{}{"models_with_batches": modelNames, "generations": c.G, "timesteps": c.T, "links": len(c.links),
 		"args": c.args, "flags": fmt.Sprintf("%+v", c.flags), "disk_latency": ctl.Latency}
+	o.Sample = smp
 	var retSeq int64 = -1
+	simrt.ResetProcs()
+	simrt.ProcMain = owsim.VerifChildMain
+	simrt.PipeOpts = simrt.PipeOptions{}
+	if ext != nil {
+		simrt.PipeOpts = simrt.PipeOptions{Tape: rc.S, ShortReads: w.Bool(60), Latency: w.Bool(50), OSPipeCap: []int{65536, 1, 7, 4096}[w.Choose(4)]}
+		smp["pipe"] = fmt.Sprintf("%+v", struct {
+			ShortReads, Latency bool
+			Capacity            int
+		}{simrt.PipeOpts.ShortReads, simrt.PipeOpts.Latency, simrt.PipeOpts.OSPipeCap})
+		smp["split_outputs"] = c.flags.SplitOutputs
+	}
 	s := simrt.Run(rc.T, simrt.Config{TraceCap: 0, DeepPct: 20, MaxSimTime: 1000 * time.Hour}, rc.S, func() {
 		owsim.VerifRunSimulation(c.args)
 		retSeq = simrt.NextSeq()
+		// the root process is gone: the operating system closes the pipe ends it held
+		simrt.RootExited()
 	})
 	o.Sim = s
 	o.Nontrivial = s.Stats.Picks > 0 && nodes > 0
@@ -454,16 +515,16 @@ func engineOwSim(rc *RunCtx) *Outcome {
 	switch s.Outcome {
 	case "":
 	case "crash":
-		o.fail("process-crash", "crash@"+crashSite(s.Crash.Stack), "ow-sim panicked on a valid model graph: %s at %s\n%s", s.Crash.Value, s.Crash.Site, s.Crash.Stack)
+		o.fail("process-crash", kp+"crash@"+crashSite(s.Crash.Stack), "ow-sim panicked on a valid model graph: %s at %s\n%s", s.Crash.Value, s.Crash.Site, s.Crash.Stack)
 		return o
 	case "exit":
-		o.fail("unexpected-exit", "exit", "ow-sim called os.Exit(%d) on a valid model graph (at %s)", *s.ExitCode, s.ExitSite)
+		o.fail("unexpected-exit", kp+"exit", "ow-sim called os.Exit(%d) on a valid model graph (at %s)", *s.ExitCode, s.ExitSite)
 		return o
 	case "deadlock":
-		o.fail("no-progress", "deadlock", "ow-sim cannot make progress (deadlock after %.1f simulated seconds); tasks: %v", float64(s.Stats.SimNanos)/1e9, s.Blocked)
+		o.fail("no-progress", kp+"deadlock", "ow-sim cannot make progress (deadlock after %.1f simulated seconds); tasks: %v", float64(s.Stats.SimNanos)/1e9, s.Blocked)
 		return o
 	default:
-		o.fail("no-progress", s.Outcome, "ow-sim did not finish within the step/time bound (%s); tasks: %v", s.Outcome, s.Blocked)
+		o.fail("no-progress", kp+s.Outcome, "ow-sim did not finish within the step/time bound (%s); tasks: %v", s.Outcome, s.Blocked)
 		return o
 	}
 	monitorViolations(ctl, o)
@@ -495,13 +556,18 @@ func engineOwSim(rc *RunCtx) *Outcome {
 		row        uint
 	}
 	writes := map[wkey]int{}
+	isOut := map[string]bool{c.out: true, c.finalFile: true}
+	for _, m := range c.models {
+		isOut[outFile(m)] = true
+		isOut[finalFile(m)] = true
+	}
 	reads := map[wkey]int{}
 	for _, cl := range ctl.Log {
 		if cl.Seq > retSeq && retSeq >= 0 && cl.Op != "" {
-			o.fail("activity-after-return", "after-return", "HDF5 call %s on %s:%s by task %s after run_simulation had returned", cl.Op, cl.File, cl.Path, cl.Task)
+			o.fail("activity-after-return", kp+"after-return", "HDF5 call %s on %s:%s by task %s after run_simulation had returned", cl.Op, cl.File, cl.Path, cl.Task)
 			return o
 		}
-		if cl.Op == "Write" && cl.Start != nil && (cl.File == c.out || cl.File == c.finalFile) {
+		if cl.Op == "Write" && cl.Start != nil && isOut[cl.File] {
 			writes[wkey{cl.File, cl.Path, cl.Start[0]}]++
 		}
 		if cl.Op == "Read" && strings.HasPrefix(cl.Path, "/MODELS/") && cl.Start != nil && cl.Elems > 0 {
@@ -510,32 +576,40 @@ func engineOwSim(rc *RunCtx) *Outcome {
 	}
 	for k, n := range writes {
 		if n > 1 {
-			o.fail("written-more-than-once", "exactly-once", "block at row %d of %s:%s was written %d times", k.row, k.file, k.path, n)
+			o.fail("written-more-than-once", kp+"exactly-once", "block at row %d of %s:%s was written %d times", k.row, k.file, k.path, n)
 			return o
 		}
 	}
 	for k, n := range reads {
 		if n > 1 && !strings.HasSuffix(k.path, "/parameters") {
-			o.fail("generation-reloaded", "reload", "rows starting at %d of %s:%s were loaded %d times (a generation was discarded while still needed)", k.row, k.file, k.path, n)
+			o.fail("generation-reloaded", kp+"reload", "rows starting at %d of %s:%s were loaded %d times (a generation was discarded while still needed)", k.row, k.file, k.path, n)
 			return o
 		}
 	}
 	if s.Stats.Tasks > 1 && len(s.Blocked) > 0 {
-		o.fail("task-alive-at-exit", "alive", "tasks still alive when run_simulation returned: %v", s.Blocked)
+		o.fail("task-alive-at-exit", kp+"alive", "tasks still alive when run_simulation returned: %v", s.Blocked)
 		return o
 	}
 	// (1) differential oracle on the output files
 	if c.out == "" {
 		for _, f := range hdf5.FileNames() {
 			if f != c.in && f != c.paramFile && f != c.stateFile && f != c.tsFile {
-				o.fail("unexpected-file", "unexpected-file", "file %s was created although no output file was given", f)
+				o.fail("unexpected-file", kp+"unexpected-file", "file %s was created although no output file was given", f)
 				return o
 			}
 		}
 		o.probe("no_output_file")
 		return o
 	}
+	var late func()
 	expect := map[string]map[string]bool{c.out: {}, c.finalFile: {}}
+	for _, m := range c.models {
+		for _, f := range []string{outFile(m), finalFile(m)} {
+			if expect[f] == nil {
+				expect[f] = map[string]bool{}
+			}
+		}
+	}
 	for _, m := range c.models {
 		if m.total == 0 {
 			continue
@@ -547,26 +621,53 @@ func engineOwSim(rc *RunCtx) *Outcome {
 			wantOutputs = true // -outputs-for only adds; the default stays "write outputs"
 		}
 		nodes := m.allNodes()
+		of, ff := outFile(m), finalFile(m)
+		_, external := ext[m.name]
+		key := func(kind string) string {
+			if external {
+				// results that travel through the pipe to a writer process: one key per kind of
+				// failure, with "missing" kept apart from "wrong"
+				return "ext/" + kind
+			}
+			return kp + kind + "/" + m.name
+		}
+		if external {
+			o.probe("model_written_by_child_process")
+		}
 		if wantOutputs {
-			expect[c.out][base+"/outputs"] = true
+			expect[of][base+"/outputs"] = true
 			ev := make([]float64, 0, m.total*nOut*c.T)
 			for _, nd := range nodes {
 				ev = append(ev, nd.out...)
 			}
-			if e := compareDataset(c.out, base+"/outputs", []int{m.total, nOut, c.T}, ev); e != nil {
-				o.fail("outputs-differ", "outputs/"+m.name, "%v (model batches %v, %d links)", e, m.batches, len(c.links))
+			if external && !datasetExists(of, base+"/outputs") {
+				o.fail("outputs-missing", "ext/outputs-missing", "outputs of %s (batches %v) were to be written to %s by a writer process, but %s:%s/outputs does not exist when ow-sim has finished", m.name, m.batches, of, of, base)
+				return o
+			}
+			if e := compareDataset(of, base+"/outputs", []int{m.total, nOut, c.T}, ev); e != nil {
+				o.fail("outputs-differ", key("outputs"), "%v (model batches %v, %d links)", e, m.batches, len(c.links))
 				return o
 			}
 			o.Checks += len(ev)
 		}
-		expect[c.finalFile][base+"/states"] = true
+		if !external || datasetExists(ff, base+"/states") {
+			expect[ff][base+"/states"] = true
+		}
 		sv := make([]float64, 0, m.total*m.width)
 		for _, nd := range nodes {
 			sv = append(sv, nd.fin...)
 			sv = append(sv, make([]float64, m.width-len(nd.fin))...)
 		}
-		if e := compareDataset(c.finalFile, base+"/states", []int{m.total, m.width}, sv); e != nil {
-			o.fail("states-differ", "states/"+m.name, "%v (model batches %v)", e, m.batches)
+		if external && !datasetExists(ff, base+"/states") {
+			// reported last, so that everything else about this run is still checked
+			mName, mBatches := m.name, m.batches
+			if late == nil {
+				late = func() {
+					o.fail("states-missing", "ext/states-missing", "final states of %s (batches %v): %s:%s/states does not exist when ow-sim has finished (results of this model go to a writer process)", mName, mBatches, ff, base)
+				}
+			}
+		} else if e := compareDataset(ff, base+"/states", []int{m.total, m.width}, sv); e != nil {
+			o.fail("states-differ", key("states"), "%v (model batches %v)", e, m.batches)
 			return o
 		}
 		o.Checks += len(sv)
@@ -580,25 +681,25 @@ func engineOwSim(rc *RunCtx) *Outcome {
 				iv = append(iv, nd.finalIn[k]...)
 			}
 		}
-		present := datasetExists(c.out, base+"/inputs")
+		present := datasetExists(of, base+"/inputs")
 		if requested && !present {
-			o.fail("inputs-missing", "inputs/"+m.name, "final inputs of %s were requested with -inputs-for but %s:%s/inputs does not exist", m.name, c.out, base)
+			o.fail("inputs-missing", key("inputs"), "final inputs of %s were requested with -inputs-for but %s:%s/inputs does not exist", m.name, of, base)
 			return o
 		}
 		if forbidden && present {
-			o.fail("inputs-unwanted", "inputs/"+m.name, "final inputs of %s were excluded with -no-inputs-for but were written", m.name)
+			o.fail("inputs-unwanted", key("inputs"), "final inputs of %s were excluded with -no-inputs-for but were written", m.name)
 			return o
 		}
 		if present {
-			expect[c.out][base+"/inputs"] = true
-			if e := compareDataset(c.out, base+"/inputs", []int{m.total, nIn, c.T}, iv); e != nil {
-				o.fail("inputs-differ", "inputs/"+m.name, "%v (model batches %v, %d links)", e, m.batches, len(c.links))
+			expect[of][base+"/inputs"] = true
+			if e := compareDataset(of, base+"/inputs", []int{m.total, nIn, c.T}, iv); e != nil {
+				o.fail("inputs-differ", key("inputs"), "%v (model batches %v, %d links)", e, m.batches, len(c.links))
 				return o
 			}
 			o.probe("final_inputs_written")
 		}
-		if !wantOutputs && datasetExists(c.out, base+"/outputs") {
-			o.fail("outputs-unwanted", "outputs/"+m.name, "outputs of %s were excluded on the command line but were written", m.name)
+		if !wantOutputs && datasetExists(of, base+"/outputs") {
+			o.fail("outputs-unwanted", key("outputs"), "outputs of %s were excluded on the command line but were written", m.name)
 			return o
 		}
 	}
@@ -611,7 +712,7 @@ func engineOwSim(rc *RunCtx) *Outcome {
 				any = true
 			}
 			if any {
-				o.fail("output-file-missing", "file-missing", "output file %s does not exist", f)
+				o.fail("output-file-missing", kp+"file-missing", "output file %s does not exist", f)
 				return o
 			}
 			continue
@@ -619,16 +720,16 @@ func engineOwSim(rc *RunCtx) *Outcome {
 		for _, d := range ds {
 			if !want[d.Path] {
 				if f == c.out && d.Path == "/stale/data" {
-					o.fail("stale-output-kept", "overwrite", "-overwrite was given but the old content of %s is still there", f)
+					o.fail("stale-output-kept", kp+"overwrite", "-overwrite was given but the old content of %s is still there", f)
 				} else {
-					o.fail("unexpected-dataset", "unexpected-dataset", "unexpected dataset %s:%s", f, d.Path)
+					o.fail("unexpected-dataset", kp+"unexpected-dataset", "unexpected dataset %s:%s", f, d.Path)
 				}
 				return o
 			}
 		}
 	}
 	if n := hdf5.OpenHandles(); n != 0 {
-		o.fail("handle-leak", "handle-leak", "%d file handle(s) left open", n)
+		o.fail("handle-leak", kp+"handle-leak", "%d file handle(s) left open", n)
 	}
 	if len(c.links) > 0 {
 		o.probe("graph_with_links")
@@ -641,6 +742,36 @@ func engineOwSim(rc *RunCtx) *Outcome {
 	}
 	if c.mixedWidths {
 		o.probe("nodes_with_different_state_widths(zero_padded_rows)")
+	}
+	if ext != nil {
+		for _, cmd := range simrt.Procs() {
+			if pr := cmd.Proc(); pr != nil && pr.ExitCode != 0 && o.Class == "" {
+				o.fail("writer-process-failed", "ext/writer-exit", "writer process %v ended with exit status %d", pr.Args, pr.ExitCode)
+			}
+		}
+		o.probe("external_writer_processes")
+		pc := simrt.PipeCounters
+		if pc.ShortReads > 0 {
+			o.probe("pipe_short_read")
+		}
+		if pc.FullWaits > 0 {
+			o.probe("pipe_full(writer_waited_for_room)")
+		}
+		if pc.SlowReads > 0 {
+			o.probe("pipe_slow_reader")
+		}
+		if len(simrt.Procs()) > 1 {
+			o.probe("two_or_more_writer_processes")
+		}
+		if o.Faults == nil {
+			o.Faults = map[string]int{}
+		}
+		o.Faults["pipe_short_read"] += pc.ShortReads
+		o.Faults["pipe_full_writer_blocked"] += pc.FullWaits
+		o.Faults["pipe_slow_reader_delay"] += pc.SlowReads
+	}
+	if late != nil && o.Class == "" {
+		late()
 	}
 	return o
 }
